@@ -8,7 +8,7 @@ PROPERTY = "C05"
 CLAUSES = ["C05.when", "C05.value", "C05.fail", "C05.late", "C05.env", "C05.once"]
 RULE = ("every condition tree (root AllOf/AnyOf with 0-3 operands, &, |; operands are leaves or nested conditions to depth "
         "2/3, <= 3/4 leaves in total) over leaves {fresh timeout(0|1|2), shared event succeeded/failed by a helper at instant "
-        "0|1|2, child process returning/raising at instant 0|1}, built at instant 0|1 by a waiter created before or after "
+        "0|1|2, child process returning/raising at instant 0|1 (so operands may already be processed, also as failures handled by a catcher, when the condition is built)}, built at instant 0|1 by a waiter created before or after "
         "the helpers, with or without an independent catcher on failing leaves, waiter catching or not; non-trivial = an "
         "operand was processed in the root's trigger instant besides the triggering one, or an operand failed; distinct = "
         "distinct (tree, timing, observation log)")
@@ -22,8 +22,9 @@ ASSUMPTIONS = [
     "conditions up to a catching waiter MUST NOT; other cases (failure absorbed by an inner condition whose own outcome "
     "nobody consumes) are not judged",
 ]
-LEAVES = [("T", 0), ("T", 1), ("T", 2), ("E", 0, 1), ("E", 1, 1), ("E", 2, 1), ("E", 1, 0), ("E", 2, 0), ("P", 1, 1), ("P", 1, 0), ("P", 0, 1)]
-LEAVES_S = [("T", 0), ("T", 1), ("E", 0, 1), ("E", 1, 1), ("E", 1, 0), ("P", 1, 1), ("P", 1, 0)]
+LEAVES = [("T", 0), ("T", 1), ("T", 2), ("E", 0, 1), ("E", 1, 1), ("E", 2, 1), ("E", 1, 0), ("E", 2, 0), ("P", 1, 1), ("P", 1, 0), ("P", 0, 1),
+          ("E", 0, 0), ("P", 0, 0)]
+LEAVES_S = [("T", 0), ("T", 1), ("E", 0, 1), ("E", 1, 1), ("E", 1, 0), ("P", 1, 1), ("P", 1, 0), ("E", 0, 0)]
 ROOTS = [("all", 0), ("any", 0), ("all", 1), ("any", 1), ("all", 2), ("any", 2), ("and",), ("or",), ("all", 3), ("any", 3)]
 NESTED = [("all", 2), ("any", 2), ("and",), ("or",), ("any", 0), ("all", 1)]
 
@@ -34,12 +35,18 @@ def plan(tier, seed):
     for ri in range(len(ROOTS)):
         for c in (0, 1):
             for order in (0, 1):
-                cfgs.append(dict(root=ri, c=c, order=order, depth=2 if quick else 3, maxleaves=3 if quick else 4, foreign=0))
+                cfgs.append(dict(root=ri, c=c, order=order, depth=2, maxleaves=3, foreign=0))
+                if not quick and ROOTS[ri][-1] in (2, 3) or (not quick and ROOTS[ri][0] in ("and", "or")):
+                    # wider trees (4 leaves) on the reduced leaf menu
+                    cfgs.append(dict(root=ri, c=c, order=order, depth=2, maxleaves=4, foreign=0, small=1))
+                if not quick and ROOTS[ri] in (("all", 2), ("any", 2)) and c == 0 and order == 0:
+                    # deeper trees (nesting depth 3) on the reduced leaf menu
+                    cfgs.append(dict(root=ri, c=c, order=order, depth=3, maxleaves=3, foreign=0, small=1))
     cfgs.append(dict(root=4, c=0, order=0, depth=1, maxleaves=2, foreign=1))
     cfgs.append(dict(root=7, c=0, order=0, depth=1, maxleaves=2, foreign=1))
     cfgs.append(dict(root=9, c=0, order=0, depth=1, maxleaves=3, foreign=1))
     return {"cfgs": cfgs, "budget": None,
-            "bound": "roots AllOf/AnyOf(0..3), &, |; nesting depth <= %d; <= %d leaves (11 kinds at root level, 7 below); construction at 0|1; "
+            "bound": "roots AllOf/AnyOf(0..3), &, |; nesting depth <= %d; <= %d leaves (thorough: 4 leaves at depth 2 and depth 3 with 3 leaves use the 8-kind menu everywhere) (13 kinds at root level, 8 below); construction at 0|1; "
                      "helper/waiter creation order; catcher on/off; waiter catching or not" % (2 if quick else 3, 3 if quick else 4)}
 
 
@@ -74,7 +81,7 @@ def execute(ch, cfg):
         n = Node()
         n.parent = None
         if not root:
-            menu = LEAVES if depth == 1 else LEAVES_S
+            menu = LEAVES if depth == 1 and not cfg.get("small") else LEAVES_S
             nested_ok = depth < cfg["depth"] and budget[0] >= 2
             opts = list(menu) + (NESTED if nested_ok else [])
             c = ch.choose(len(opts), lambda c: "operand %s" % (opts[c],), free=True)
@@ -250,7 +257,7 @@ def execute(ch, cfg):
             if failed and not (o.kind == "leaf" and o.caught):
                 musts.append((pos, now, args))
             return
-        if failed and o.kind == "leaf" and not o.caught:
+        if failed and not (o.kind == "leaf" and o.caught):
             a = c.parent
             while a is not None:
                 if a.ref is not None:
